@@ -73,6 +73,7 @@ inline double model(int kind, const double *x, int d, int k){
         case 2: return 1.0 + 0.5 * k;                                                     // constant
         case 3: for(int j=0;j<d;j++) s += std::exp(-(1.5 + k) * (x[j] - 0.3) * (x[j] - 0.3)) * (j + 1); return s; // peaked (drives adaptivity)
         case 5: return model(0, x, d, k) * ((k == 0) ? 0.01 : 3.0 + k);                  // outputs of very different magnitude (per-output normalisation matters)
+        case 7: { double t = 0; for(int j=0;j<d;j++) t += (double)(j + 1 + k) * x[j]; return std::exp(-t * t) + std::sin(3.0 * t + (double) k) + 0.5 * std::sin(17.0 * x[0] - 11.0 * x[d-1]); } // oscillatory: slow convergence of iterative solvers
         case 6: for(int j=0;j<d;j++) s += std::abs(x[j] - 0.3137 - 0.05 * j) * (1.0 + k) + std::sqrt(std::abs(x[j] + 0.4219)) + ((x[j] > -0.7071) ? 0.5 : 0.0); return s; // kinks, a root singularity and a jump: deep levels keep sizeable coefficients                  // outputs of very different magnitude (per-output normalisation matters)
         default: for(int j=0;j<d;j++) s += std::cos(2.0 * M_PI * x[j] * (j + 1)) + 0.5 * std::sin(2.0 * M_PI * x[j]) * (k + 1); return s; // periodic
     }
